@@ -129,7 +129,7 @@ Proof.
 Qed.
 
 Lemma simple_keeps p : simple p = true -> keeps p = true.
-Proof. destruct p as [| |[]]; simpl; auto. Qed.
+Proof. destruct p as [| |[]| |]; simpl; auto. Qed.
 
 Lemma c08_exactly_once_l : forall s ps sch i th mb m u,
   store_ok s -> msgs_nodup s -> forallb simple ps = true ->
